@@ -234,6 +234,14 @@ func genCase(r *hx.Rand, big bool) hcase {
 				kind += "+hrr"
 			}
 		}
+		if r.Intn(4) == 0 && len(h) > 5 {
+			// the record header's version field is not the negotiated version: initial hellos carry 3.1 or 3.3,
+			// old stacks 3.0, and the sniffer takes whatever the library takes
+			v := hx.Pick(r, [][2]byte{{3, 0}, {3, 2}, {3, 3}, {3, 4}, {3, 255}, {2, 0}, {4, 1}})
+			h = append([]byte{}, h...)
+			h[1], h[2] = v[0], v[1]
+			kind += "+recver"
+		}
 		body := len(h) - 5
 		payload := r.Bytes(r.Intn(300))
 		return hcase{append(append([]byte{}, h...), payload...), cfg.ServerName, cfg.NextProtos, body <= 16384 && len(h) >= 5, kind}
